@@ -55,6 +55,13 @@ type loader struct {
 	// the rule cannot be added if there is more than one nodes suitable for this
 	// in the row.
 	nodesPerCurrentLineCount uint
+
+	// keyPending an object key has been read and its value has not begun yet.
+	keyPending bool
+
+	// pendingNote the note of an annotation found between a key and its value:
+	// it belongs to the value, which is not there yet.
+	pendingNote string
 }
 
 func LoadSchema(scan *scanner.Scanner, rootSchema *schema.Schema) *schema.Schema {
@@ -106,6 +113,8 @@ func (l *loader) reset() {
 	l.node = nil
 	l.mode = readDefault
 	l.nodesPerCurrentLineCount = 0
+	l.keyPending = false
+	l.pendingNote = ""
 }
 
 // doLoad the main function, in which there is a cycle of scanning and loading schemas.
@@ -129,7 +138,16 @@ func (l *loader) doLoad() {
 		case readMultiLineComment, readInlineComment:
 			l.rule.load(lex)
 		default:
+			if t := lex.Type(); t == lexeme.ObjectKeyEnd || t == lexeme.KeyShortcutEnd {
+				l.keyPending = true
+			}
 			if node := l.node.Load(lex); node != nil {
+				if lex.Type() != lexeme.ObjectEnd { // a new node
+					if l.pendingNote != "" {
+						node.SetComment(l.pendingNote)
+					}
+					l.keyPending, l.pendingNote = false, ""
+				}
 				l.lastAddedNode = node
 			}
 		}
@@ -154,7 +172,7 @@ func (l *loader) handleLex(lex lexeme.LexEvent) (bool, error) { //nolint:gocyclo
 
 	case lexeme.MultiLineAnnotationBegin:
 		l.mode = readMultiLineComment
-		l.rule = newRuleLoader(l.lastAddedNode, l.nodesPerCurrentLineCount, l.rootSchema, l.rules)
+		l.rule = l.newRuleLoader()
 		return true, nil
 
 	case lexeme.MultiLineAnnotationEnd:
@@ -164,7 +182,7 @@ func (l *loader) handleLex(lex lexeme.LexEvent) (bool, error) { //nolint:gocyclo
 	case lexeme.InlineAnnotationBegin:
 		if l.mode == readDefault { // not multiLine comment
 			l.mode = readInlineComment
-			l.rule = newRuleLoader(l.lastAddedNode, l.nodesPerCurrentLineCount, l.rootSchema, l.rules)
+			l.rule = l.newRuleLoader()
 			return true, nil
 		}
 
@@ -176,4 +194,14 @@ func (l *loader) handleLex(lex lexeme.LexEvent) (bool, error) { //nolint:gocyclo
 	}
 
 	return false, nil
+}
+
+func (l *loader) newRuleLoader() *ruleLoader {
+	rl := newRuleLoader(l.lastAddedNode, l.nodesPerCurrentLineCount, l.rootSchema, l.rules)
+	if l.keyPending {
+		// A note between a key and its value is a note of the value, not of
+		// the node before the key.
+		rl.onNote = func(s string) { l.pendingNote = s }
+	}
+	return rl
 }
